@@ -69,6 +69,11 @@ fn build_cells(rep: &Report) -> Vec<Cell> {
         let spec = pair(fam, ov, n, &mut rng);
         cells.push(Cell { name: format!("rand{}/{}/{:?}/{}/m={}/{}", i, v.name(), hs, entry_name(e), m, spec.name), v, hs, entry: e, m, spec });
     }
+    // cells that exhibit the known finding C01/squared_error/pmh3-family-small-m in every run
+    for v in [Pv::P3, Pv::P3a, Pv::P3aSha] {
+        let spec = PairSpec { name: "two_items_ratio3/n=2".into(), wa: vec![1., 3.], wb: vec![3., 1.] };
+        cells.push(Cell { name: format!("known/{}/m=2/two_items_ratio3", v.name()), v, hs: Hs::Fnv, entry: entries_for(v)[0], m: 2, spec });
+    }
     // single item sets (n = 1): identical singleton
     for v in ALL_PV {
         let spec = PairSpec { name: "singleton/identical/n=1".into(), wa: vec![3.5], wb: vec![3.5] };
@@ -142,6 +147,22 @@ pub fn run(rep: &mut Report) {
         if !degenerate {
             rep.distinct.insert(mix(&[c.v as u64, c.m as u64, digest_f64s(&c.spec.wa), digest_f64s(&c.spec.wb), fnv64(entry_name(c.entry).as_bytes())]));
         }
+        // known finding: variants 3 / 3a / 3a-Sha with m <= 3 exceed the MinHash bound J(1-J)/m on sets of few items with
+        // unequal weights (up to ~21% at m=2, ~3.5% at m=3; inherent to one point per unit interval). Keyed on the input class
+        // and capped: a larger excess, or any other cell, keeps the ordinary key.
+        let mut rs = rs;
+        if c.v != Pv::P2 && c.m <= 3 {
+            let bound = jt * (1. - jt) / c.m as f64;
+            for r in rs.iter_mut() {
+                if r.name == "squared_error" && r.verdict == Verdict::Violated {
+                    let last = r.stages.last().cloned().unwrap_or((0, 0., 0., 0.));
+                    if last.1 <= 1.30 * bound {
+                        rep.violation("C01/squared_error/pmh3-family-small-m", &c.name, format!("{} m={}: mean squared error {:.5e} exceeds J_P(1-J_P)/m = {:.5e} by {:.1}% (z {:.1}, T {})", c.v.name(), c.m, last.1, bound, 100. * (last.1 / bound - 1.), last.3, last.0), case.clone());
+                        r.verdict = Verdict::Held;
+                    }
+                }
+            }
+        }
         record_cell(rep, "C01", &c.name, &rs, trials * 2, case);
     }
     // ---------------- register law: for a single item of weight w every register is Exp(w/m), independently per position
@@ -203,4 +224,43 @@ pub fn run(rep: &mut Report) {
     collect_ticks(rep);
     rep.assumptions.push("identifiers are fresh random u64 per trial, hashed by the crate's own hasher (Fnv / NoHash / Sha512_256); the sketchers are never re-seeded".into());
     rep.assumptions.push("resolution per cell (7 standard errors of the last stage) is printed in coverage.cells; a bias below it is invisible".into());
+}
+
+/// development probe: ratio MSE * m / (J (1-J)) for small m (prints a table)
+pub fn child_mse(a: &[String]) -> i32 {
+    let t: u64 = a.first().and_then(|s| s.parse().ok()).unwrap_or(2_000_000);
+    let specs = vec![
+        ("r2", vec![1., 2.], vec![2., 1.]),
+        ("r3", vec![1., 3.], vec![3., 1.]),
+        ("r4", vec![1., 4.], vec![4., 1.]),
+        ("r7", vec![1., 7.], vec![7., 1.]),
+        ("r10", vec![1., 10.], vec![10., 1.]),
+        ("r3_3", vec![1., 3., 0.], vec![3., 1., 2.]),
+        ("dis", vec![1., 4., 0.], vec![4., 0., 1.]),
+    ];
+    for (name, wa, wb) in specs {
+        let j = jp(&wa, &wb);
+        for v in ALL_PV {
+            for m in [2usize, 3, 4, 8, 16, 64] {
+                let n = wa.len();
+                let targets = vec![Target::new("x", j, Kind::Info), Target::new("sq", 0., Kind::Info)];
+                let (rs, _) = staged(mix(&[m as u64, v as u64, 77]), t, 1, &targets, |rng, out| {
+                    let ids = fresh_ids(rng, n, 0);
+                    let a: Vec<(u64, f64)> = (0..n).filter(|&i| wa[i] > 0.).map(|i| (ids[i], wa[i])).collect();
+                    let b: Vec<(u64, f64)> = (0..n).filter(|&i| wb[i] > 0.).map(|i| (ids[i], wb[i])).collect();
+                    let e = entries_for(v)[0];
+                    let (sa, _) = pmh(v, Hs::Fnv, m, &a, e, 0);
+                    let (sb, _) = pmh(v, Hs::Fnv, m, &b, e, 0);
+                    let x = compute_probminhash_jaccard(&sa, &sb);
+                    out[0] = x;
+                    out[1] = (x - j) * (x - j);
+                });
+                let mse = rs[1].stages[0].1;
+                let se = rs[1].stages[0].2;
+                let bound = j * (1. - j) / m as f64;
+                println!("{:8} {:9} m={:3} J={:.4} mean={:.5} MSE/bound={:.4} +-{:.4}", name, v.name(), m, j, rs[0].stages[0].1, mse / bound, se / bound);
+            }
+        }
+    }
+    0
 }
